@@ -138,20 +138,20 @@ def recheck_theorems(prop_file):
 
 def run_model(entry, inputs, timeout=1800):
     """inputs: list of python sx values; returns list of decoded results.  Every line is evaluated on its own (the runner keeps
-    no state between lines), so a long list is cut into contiguous chunks evaluated by several runner processes."""
+    no state between lines), so a long list is dealt out to several runner processes."""
     jobs = int(os.environ.get("VERIF_JOBS", "12"))
     if len(inputs) >= 400 and jobs > 1:
         from concurrent.futures import ThreadPoolExecutor
         n = min(jobs, len(inputs) // 100)
-        size = (len(inputs) + n - 1) // n
-        chunks = [inputs[i:i + size] for i in range(0, len(inputs), size)]
-        with ThreadPoolExecutor(max_workers=len(chunks)) as ex:
+        # dealt out in turn, not cut into runs: the expensive cases of a generator sit next to each other
+        chunks = [inputs[k::n] for k in range(n)]
+        with ThreadPoolExecutor(max_workers=n) as ex:
             parts = list(ex.map(lambda ch: run_model_chunk(entry, ch, timeout), chunks))
-        res = []
-        for r, e in parts:
+        res = [None] * len(inputs)
+        for k, (r, e) in enumerate(parts):
             if r is None:
                 return None, e
-            res += r
+            res[k::n] = r
         return res, None
     return run_model_chunk(entry, inputs, timeout)
 
@@ -430,14 +430,20 @@ def run_prop(prop, tier, seed, replay=None):
         # a case that ran out of time next to eleven other busy processes is run once more, alone and with three
         # times the budget, before it is believed: a hang of the library shows again, a starved process does not
         slow = [i for i, o in enumerate(obs) if isinstance(o, dict) and o.get("status") == "hang"]
-        if slow and len(slow) <= 200:
-            obs3 = run_impl_shard(prop.impl_module, [cases[i] for i in slow], 1800, prop.per_case_timeout * 3, "retry")
-            back = 0
-            for i, o in zip(slow, obs3):
+        back, tried = 0, 0
+        for batch in (slow[:3], slow[3:203]):
+            # three first: if one of them hangs again the library hangs, and the others are believed as they are
+            if not batch or back < tried:
+                break
+            budget = prop.per_case_timeout * 3
+            obs3 = run_impl_shard(prop.impl_module, [cases[i] for i in batch], budget * len(batch) + 120, budget, "retry")
+            tried += len(batch)
+            for i, o in zip(batch, obs3):
                 if not (isinstance(o, dict) and o.get("status") == "hang"):
                     obs[i] = o
                     back += 1
-            res.notes.append("%d cases ran out of time in the sharded run; re-run alone: %d still do" % (len(slow), len(slow) - back))
+        if slow:
+            res.notes.append("%d cases ran out of time in the sharded run; %d re-run alone, %d of those completed" % (len(slow), tried, back))
     mouts = None
     if model_ok and cases:
         def minput(c, o):
